@@ -1,10 +1,26 @@
 /-
   C06 — results do not depend on buffer slicing; encoder output is deterministic.
-  Only property theorems and non-vacuity examples live here; helper lemmas are in Lemmas/Coder*.lean.
+  Only property theorems and non-vacuity examples live here; helper lemmas are in Lemmas/Coder*.lean, Lemmas/BcjShape.lean,
+  Lemmas/MtEncChain.lean.
+
+  Layout:
+   1. the generic theorem about byte machines (+ a toy machine as non-vacuity witness);
+   2. liblzma's small resumable coders as INSTANCES of it (VLI decoder, `lzma_bufcpy` field reader, LZMA2 chunk-header machine,
+      Index decoder): call-by-call simulation by a byte machine, hence independence of ARBITRARY slicings, and what every
+      slicing computes; delta (reading the caller's input, and behind any next coder, both directions); `lzma_vli_encode`;
+   3. `simple_code()`: slicing theorem for every filter with the BCJ contract; the contract PROVED for the eight real filters
+      (bridge to C15); equivalence with the model C15 ties to the C code; the theorem for that model with no hypothesis left;
+   4. threaded encoder: output bytes are a function of (input, block size, flush offsets, filter updates) — from C08.
+  NOT covered by any theorem here (C-vs-C slicing oracle of tools/props/c06.py only): the LZMA symbol decoder's resume points,
+  the LZ window, the LZMA/LZMA2 encoders and `fill_window`, the container coders built from them, `simple_code()` behind a
+  real (non-pass-through) next coder.
 -/
 import XzVerif.Lemmas.Coder
 import XzVerif.Lemmas.CoderSmall
 import XzVerif.Lemmas.CoderSimple
+import XzVerif.Lemmas.CoderMachines
+import XzVerif.Lemmas.CoderBcjRun
+import XzVerif.Lemmas.MtEncChain
 
 namespace XzVerif.C06
 open XzVerif XzVerif.Coder XzVerif.Vli
@@ -71,6 +87,27 @@ theorem ofByteMachine_settled_stable {μ : Type} (m : ByteMachine μ) (s₀ : μ
   rw [hr] at l₂
   omega
 
+/-- The same with the final coder state (machine state and end-of-input flag) — needed for coders whose result lives in the state
+    (decoded integers, header fields, Index records). -/
+theorem ofByteMachine_slicing_independent_state {μ : Type} (m : ByteMachine μ) (s₀ : μ) (input : List UInt8) (fin : Bool)
+    (sl₁ sl₂ : List (Nat × Nat)) :
+    let r₁ := runSliced (Coder.ofByteMachine m) fin sl₁ (Run.init (s₀, false) input)
+    let r₂ := runSliced (Coder.ofByteMachine m) fin sl₂ (Run.init (s₀, false) input)
+    r₁.settled = true → r₂.settled = true → r₁.out = r₂.out ∧ r₁.ret = r₂.ret ∧ r₁.consumed = r₂.consumed ∧ r₁.state = r₂.state :=
+  Coder.ofByteMachine_slicing_independent_state m s₀ input fin sl₁ sl₂
+
+/-- **Transfer to chunk-faithful coders.** If every call of a coder `c` (written the way the C function is written: a loop over the
+    bytes of this call with its own resume state) equals the corresponding call of `ofByteMachine m` under a state abstraction
+    `abs` (`Sim`, for the machine states satisfying `live`, which is preserved while calls return `LZMA_OK`), then `c` itself is
+    slicing independent: any two fair slicings, of any number of pieces, give the same output, return code, consumed count and
+    final state. -/
+theorem chunk_faithful_slicing_independent {σ μ : Type} {c : Coder σ} {m : ByteMachine μ} {abs : μ → σ} {live : μ → Prop}
+    (h : Sim c m abs live) (s₀ : μ) (hl : live s₀) (input : List UInt8) (fin : Bool) (sl₁ sl₂ : List (Nat × Nat)) :
+    let r₁ := runSliced c fin sl₁ (Run.init (abs s₀) input)
+    let r₂ := runSliced c fin sl₂ (Run.init (abs s₀) input)
+    r₁.settled = true → r₂.settled = true → r₁.out = r₂.out ∧ r₁.ret = r₂.ret ∧ r₁.consumed = r₂.consumed ∧ r₁.state = r₂.state :=
+  h.slicing_independent s₀ hl input fin sl₁ sl₂
+
 /-! ### Non-vacuity: a small machine with both blocking directions, an error path and the end-of-input signal -/
 
 /-- Run-length decoder: reads pairs `(count, byte)` and writes `byte` `count` times; a count ≥ 200 is a data error; the end of input
@@ -109,90 +146,45 @@ example : showRun (runSliced (Coder.ofByteMachine rle) false [(2, 1), (5, 5)] (R
 example : (runSliced (Coder.ofByteMachine rle) true [(6, 0), (6, 0)] (Run.init (.idle, false) [3, 65, 0, 66, 2, 67])).settled = false := by
   decide +kernel
 
-/-! ## Chunk-faithful small coders refine their whole-buffer meaning
+/-! ## 2. The small resumable coders of liblzma are instances
 
-  NOT covered by any theorem here: the LZMA symbol decoder of `lzma_decoder.c` (about 25 `SEQ_*` resume points with saved locals),
-  the LZ window, the LZMA/LZMA2 encoders and `fill_window`, and the containers built from them. For those the property is checked by the
-  C-vs-C slicing oracle of `tools/props/c06.py` only (every two-piece split, byte-at-a-time, random slicings on the real code). -/
+  Each coder below is written call by call (what one call of the C function does with the `avail_in` bytes it is given, with the C
+  resume state); `*_refines` shows it equal, call by call, to `Coder.ofByteMachine` of a byte machine, so the generic theorem applies:
+  `*_slicing_independent` — any two fair slicings with any number of pieces, empty calls included — and `*_sliced_eq_whole` names
+  what they all compute. The driver `xzm_c06` runs the same functions (`vliDecodeMulti`, `fieldCoder`, `l2Feed`, `ixFeed`) against
+  the C code call by call. -/
 
-/-- `lzma_vli_decode` with a persistent `vli_pos`: decoding `a ++ b` in one call = decoding `a` (which, if the integer is not
-    complete, returns `LZMA_OK` having consumed all of `a`), then `b` with the carried `(vli, vli_pos)`; the consumed counts add up.
-    This is the statement for every split of the input; more pieces follow by repeating it (`LZMA_OK` leaves a state that is again a
-    valid argument: `vli_chunked_state_valid`). -/
-theorem vli_chunked_refines (a b : List UInt8) (ha : a ≠ []) (hb : b ≠ []) :
-    vliDecodeMulti 0 0 (a ++ b) =
-      (if (vliDecodeMulti 0 0 a).1 = .ok then
-        ((vliDecodeMulti (vliDecodeMulti 0 0 a).2.1 (vliDecodeMulti 0 0 a).2.2.1 b).1,
-         (vliDecodeMulti (vliDecodeMulti 0 0 a).2.1 (vliDecodeMulti 0 0 a).2.2.1 b).2.1,
-         (vliDecodeMulti (vliDecodeMulti 0 0 a).2.1 (vliDecodeMulti 0 0 a).2.2.1 b).2.2.1,
-         (vliDecodeMulti (vliDecodeMulti 0 0 a).2.1 (vliDecodeMulti 0 0 a).2.2.1 b).2.2.2 + (vliDecodeMulti 0 0 a).2.2.2)
-      else vliDecodeMulti 0 0 a) := by
-  have hab : (a ++ b).isEmpty = false := by cases a <;> simp_all
-  have ha' : a.isEmpty = false := by cases a <;> simp_all
-  have hb' : b.isEmpty = false := by cases b <;> simp_all
-  have e0 : ∀ l : List UInt8, l.isEmpty = false → vliDecodeMulti 0 0 l = vliDecLoop l 0 0 0 := by
-    intro l hl; simp [vliDecodeMulti, VLI_BYTES_MAX, hl]
-  rw [e0 _ hab, e0 _ ha', vliDecLoop_append]
-  split
-  · rename_i hok
-    obtain ⟨i1, i2, i3⟩ := vliDecLoop_ok_inv a 0 0 0 (by omega) (by simp) hok
-    have i3' := i3 ha
-    have hchk : vliDecodeMulti (vliDecLoop a 0 0 0).2.1 (vliDecLoop a 0 0 0).2.2.1 b
-        = vliDecLoop b (vliDecLoop a 0 0 0).2.1 (vliDecLoop a 0 0 0).2.2.1 0 := by
-      have hz : (vliDecLoop a 0 0 0).2.1 >>> ((vliDecLoop a 0 0 0).2.2.1 * 7) = 0 := by
-        rw [Nat.shiftRight_eq_div_pow, Nat.mul_comm]
-        exact Nat.div_eq_of_lt i2
-      have hp0 : (vliDecLoop a 0 0 0).2.2.1 ≠ 0 := by omega
-      have hp9 : ¬ (vliDecLoop a 0 0 0).2.2.1 ≥ VLI_BYTES_MAX := by simp [VLI_BYTES_MAX]; omega
-      simp [vliDecodeMulti, hp0, hp9, hz, hb']
-    rw [hchk, vliDecLoop_used b _ _ (vliDecLoop a 0 0 0).2.2.2]
-  · rfl
+/-- `lzma_vli_decode` in multi-call mode (`vli`, `vli_pos` persist): byte machine "read a byte, add seven bits, stop at the first byte
+    without continuation bit / at the 9-byte limit / at a non-minimal zero byte". `live` = the argument check of the C function
+    passes (`vli_pos < 9`, `vli < 2^(7·vli_pos)`). -/
+theorem vli_decoder_refines : Sim vliDecCoder vliMachine VliM.abs VliM.live := vli_sim
 
-/-- … and after `LZMA_OK` the carried state passes the argument check of the next call: `0 < vli_pos < 9`, `vli < 2^(7·vli_pos)`,
-    and the whole piece was consumed. -/
-theorem vli_chunked_state_valid (a : List UInt8) (ha : a ≠ []) (h : (vliDecodeMulti 0 0 a).1 = .ok) :
-    0 < (vliDecodeMulti 0 0 a).2.2.1 ∧ (vliDecodeMulti 0 0 a).2.2.1 < 9
-      ∧ (vliDecodeMulti 0 0 a).2.1 < 2 ^ (7 * (vliDecodeMulti 0 0 a).2.2.1) ∧ (vliDecodeMulti 0 0 a).2.2.2 = a.length := by
-  have ha' : a.isEmpty = false := by cases a <;> simp_all
-  have e0 : vliDecodeMulti 0 0 a = vliDecLoop a 0 0 0 := by simp [vliDecodeMulti, VLI_BYTES_MAX, ha']
-  rw [e0] at h ⊢
-  obtain ⟨i1, i2, i3⟩ := vliDecLoop_ok_inv a 0 0 0 (by omega) (by simp) h
-  exact ⟨i3 ha, i1, i2, by simpa using vliDecLoop_ok_consumed a 0 0 0 h⟩
+theorem vli_decoder_slicing_independent (input : List UInt8) (fin : Bool) (sl₁ sl₂ : List (Nat × Nat)) :
+    let r₁ := runSliced vliDecCoder fin sl₁ (Run.init (0, 0) input)
+    let r₂ := runSliced vliDecCoder fin sl₂ (Run.init (0, 0) input)
+    r₁.settled = true → r₂.settled = true → r₁.out = r₂.out ∧ r₁.ret = r₂.ret ∧ r₁.consumed = r₂.consumed ∧ r₁.state = r₂.state :=
+  vli_slicing_independent 0 0 (by omega) (by simp) input fin sl₁ sl₂
 
-/-- The multi-call decoder fed the whole buffer at once is the single-call / specification decoder `Vli.vliDecode` (Model/Vli.lean,
-    the one C02/C03 reason about): `LZMA_STREAM_END` with value `v` after `c` bytes iff `vliDecode` yields `v` and the rest.
-    Together with `vli_chunked_refines`: however the bytes of a VLI arrive, the chunked decoder computes `vliDecode`. -/
-theorem vli_chunked_eq_whole (inp : List UInt8) :
-    vliDecode inp =
-      match vliDecodeMulti 0 0 inp with
-      | (.streamEnd, v, _, c) => some (v, inp.drop c)
-      | _ => none := by
-  cases inp with
-  | nil => simp [vliDecode, vliDecodeAux, vliDecodeMulti, VLI_BYTES_MAX]
-  | cons b t =>
-    have e0 : vliDecodeMulti 0 0 (b :: t) = vliDecLoop (b :: t) 0 0 0 := by simp [vliDecodeMulti, VLI_BYTES_MAX]
-    rw [e0]
-    have h := vliDecLoop_spec (b :: t) 0 0 0
-    simp only [vliDecode]
-    cases hd : vliDecodeAux 0 (b :: t) with
-    | none =>
-      simp only [hd] at h
-      split
-      · rename_i heq; rw [heq] at h; simp at h
-      · rfl
-    | some p =>
-      obtain ⟨v, r⟩ := p
-      simp only [hd] at h
-      obtain ⟨h1, h2, _⟩ := h
-      rw [h1]
-      simp only [Nat.mul_zero, Nat.pow_zero, Nat.mul_one, Nat.zero_add]
-      rw [← h2]
+/-- … and what they compute is the specification decoder `Vli.vliDecode` (Model/Vli.lean, the one C02/C03 reason about) of the whole
+    buffer: `LZMA_STREAM_END` iff it yields a value; then the value is in `*vli`, and exactly the integer's bytes were consumed. -/
+theorem vli_decoder_sliced_eq_whole (input : List UInt8) (fin : Bool) (sl : List (Nat × Nat)) :
+    let R := runSliced vliDecCoder fin sl (Run.init (0, 0) input)
+    R.settled = true →
+      match vliDecode input with
+      | some (v, rest) => R.ret = .streamEnd ∧ R.state.1 = v ∧ R.consumed = input.length - rest.length ∧ rest = input.drop R.consumed
+      | none => R.ret ≠ .streamEnd :=
+  vli_sliced_eq_vliDecode input fin sl
 
-/-- non-vacuity: 2^35+5 takes six bytes; split after 1, 2, …, 5 bytes, and with a trailing byte that must stay unread -/
-example : vliDecodeMulti 0 0 [0x85, 0x80, 0x80, 0x80, 0x80, 0x01, 0x77] = (.streamEnd, 2 ^ 35 + 5, 6, 6) := by decide +kernel
-example : vliDecodeMulti 0 0 [0x85, 0x80, 0x80] = (.ok, 5, 3, 3) := by decide +kernel
-example : vliDecodeMulti 5 3 [0x80, 0x80, 0x01, 0x77] = (.streamEnd, 2 ^ 35 + 5, 6, 3) := by decide +kernel
-example : vliDecodeMulti 0 0 [0x85, 0x80, 0x00] = (.dataError, 5, 3, 3) := by decide +kernel
+/-- non-vacuity: 2^35+5 takes six bytes; whole, and byte-at-a-time with empty calls; a non-minimal encoding is rejected at byte 3 -/
+example : (fun r : Run (Nat × Nat) => (r.ret, r.state.1, r.consumed, r.settled))
+    (runSliced vliDecCoder true [(100, 0)] (Run.init (0, 0) [0x85, 0x80, 0x80, 0x80, 0x80, 0x01, 0x77]))
+    = (.streamEnd, 2 ^ 35 + 5, 6, true) := by decide +kernel
+example : (fun r : Run (Nat × Nat) => (r.ret, r.state.1, r.consumed, r.settled))
+    (runSliced vliDecCoder true [(1, 0), (0, 0), (1, 0), (1, 0), (0, 5), (1, 0), (1, 0), (1, 0), (1, 0)]
+      (Run.init (0, 0) [0x85, 0x80, 0x80, 0x80, 0x80, 0x01, 0x77]))
+    = (.streamEnd, 2 ^ 35 + 5, 6, true) := by decide +kernel
+example : (fun r : Run (Nat × Nat) => (r.ret, r.consumed))
+    (runSliced vliDecCoder true [(2, 0), (5, 0)] (Run.init (0, 0) [0x85, 0x80, 0x00])) = (.dataError, 3) := by decide +kernel
 
 /-- `lzma_vli_encode` with a persistent `vli_pos`: writing into one window of `c₁ + c₂` bytes = writing into a window of `c₁` bytes
     and, if that returned `LZMA_OK` (window full), continuing with the carried `vli_pos` into a window of `c₂` bytes: same final
@@ -235,6 +227,16 @@ example : vliEncodeMulti 123456789 0 9 = (.streamEnd, 4, [0x95, 0x9A, 0xEF, 0x3A
 example : vliEncodeMulti 123456789 0 1 = (.ok, 1, [0x95]) := by decide +kernel
 example : vliEncodeMulti 123456789 1 8 = (.streamEnd, 4, [0x9A, 0xEF, 0x3A]) := by decide +kernel
 
+/-- The `lzma_bufcpy` field reader (`coder->pos` into a buffer of `size` bytes; Stream Header/Footer, Block Header, `rc_read_init`, …)
+    is the byte machine "read until `size` bytes are there". -/
+theorem field_reader_machine (size : Nat) : Sim (fieldCoder size) (fieldMachine size) id (fun _ => True) := field_sim size
+
+theorem field_reader_slicing_independent (size : Nat) (input : List UInt8) (fin : Bool) (sl₁ sl₂ : List (Nat × Nat)) :
+    let r₁ := runSliced (fieldCoder size) fin sl₁ (Run.init [] input)
+    let r₂ := runSliced (fieldCoder size) fin sl₂ (Run.init [] input)
+    r₁.settled = true → r₂.settled = true → r₁.out = r₂.out ∧ r₁.ret = r₂.ret ∧ r₁.consumed = r₂.consumed ∧ r₁.state = r₂.state :=
+  field_slicing_independent size [] input fin sl₁ sl₂
+
 /-- The `lzma_bufcpy` field reader (`coder->pos` into a buffer of `size` bytes; Stream Header/Footer, Block Header, …): under every
     slicing the buffer holds exactly the first `consumed` bytes of the input, never more than `size`; nothing is written; and a
     settled run has consumed `min size |input|` bytes — the field is complete (`LZMA_STREAM_END` here) iff the input is long enough. -/
@@ -272,131 +274,244 @@ theorem delta_refines (s₀ : Delta.State) (input : List UInt8) (fin : Bool) (sl
 example : (runSliced deltaEncCoder true [(1, 1), (0, 0), (3, 2), (0, 1), (9, 9)] (Run.init (Delta.State.init 2) [1, 2, 3, 4, 5, 6])).out
     = [1, 2, 2, 2, 2, 2] := by decide +kernel
 
-/-- The LZMA2 chunk-header machine (8 sequences of `lzma2_decode()`, LZMA payload abstract): feeding `a ++ b` = feeding `a`, then `b`
-    from the state `a` left (unless `a` already ended the stream or hit an error): same final state, same events in the same order
-    (dictionary resets, state resets, properties, chunk sizes, every copied byte, every payload byte, the verdict), counts add up. -/
-theorem lzma2_header_refines (s : L2State) (a b : List UInt8) :
-    l2Feed s (a ++ b) =
-      if (l2Feed s a).2.1.any L2Event.isFinished then l2Feed s a
-      else ((l2Feed (l2Feed s a).1 b).1, (l2Feed s a).2.1 ++ (l2Feed (l2Feed s a).1 b).2.1,
-            (l2Feed (l2Feed s a).1 b).2.2 + (l2Feed s a).2.2) :=
-  l2Feed_append s a b
+/-- **Delta behind any next coder** — the only configuration of `delta_decode()` (`next.code != NULL`), and `delta_encode()` in a
+    chain: the coder calls the next coder with the caller's buffers unchanged and transforms what it wrote. For EVERY next coder
+    (`src`), every slicing: the run is the next coder's run on the same slicing (same consumed, return code, settledness) with the
+    output delta-transformed as one stream from the initial history. -/
+theorem delta_behind_next_refines {ν : Type} (src : Src ν) (enc : Bool) (sl : List (Nat × Nat)) (fin : Bool) (d₀ : Delta.State) (n₀ : ν)
+    (input : List UInt8) :
+    let R := runSliced (deltaNextCoder src enc) fin sl (Run.init (d₀, n₀) input)
+    let r := runSliced (srcCoder src) fin sl (Run.init n₀ input)
+    R.rest = r.rest ∧ R.consumed = r.consumed ∧ R.ret = r.ret ∧ R.settled = r.settled ∧ R.state.2 = r.state
+      ∧ R.out = (if enc then Delta.encode d₀ r.out else Delta.decode d₀ r.out).2
+      ∧ R.state.1 = (if enc then Delta.encode d₀ r.out else Delta.decode d₀ r.out).1 :=
+  delta_behind_next src enc sl fin d₀ n₀ input
 
-/-- non-vacuity: an uncompressed chunk with dictionary reset, cut inside its size field and inside its data; a chunk that needs a
-    dictionary reset first is rejected at its control byte -/
+/-- Hence delta (encoder or decoder) in front of a next coder is slicing independent on every pair of slicings on which the next
+    coder is. -/
+theorem delta_behind_next_slicing_independent {ν : Type} (src : Src ν) (enc : Bool) (fin : Bool) (d₀ : Delta.State) (n₀ : ν)
+    (input : List UInt8) (sl₁ sl₂ : List (Nat × Nat)) :
+    let r₁ := runSliced (srcCoder src) fin sl₁ (Run.init n₀ input)
+    let r₂ := runSliced (srcCoder src) fin sl₂ (Run.init n₀ input)
+    let R₁ := runSliced (deltaNextCoder src enc) fin sl₁ (Run.init (d₀, n₀) input)
+    let R₂ := runSliced (deltaNextCoder src enc) fin sl₂ (Run.init (d₀, n₀) input)
+    r₁.out = r₂.out ∧ r₁.ret = r₂.ret ∧ r₁.consumed = r₂.consumed →
+      R₁.out = R₂.out ∧ R₁.ret = R₂.ret ∧ R₁.consumed = R₂.consumed ∧ R₁.state.1 = R₂.state.1 :=
+  delta_behind_next_slicing src enc fin d₀ n₀ input sl₁ sl₂
+
+/-- non-vacuity: the delta DEcoder behind the harness's stub next coder (ends after 6 bytes), ragged vs. whole -/
+example : (runSliced (deltaNextCoder Src.stub false) true [(1, 1), (0, 0), (3, 2), (0, 1), (9, 9)]
+      (Run.init (Delta.State.init 2, (6, false)) [1, 2, 2, 2, 2, 2])).out = [1, 2, 3, 4, 5, 6] := by decide +kernel
+example : (runSliced (deltaNextCoder Src.stub false) true [(9, 9)]
+      (Run.init (Delta.State.init 2, (6, false)) [1, 2, 2, 2, 2, 2])).out = [1, 2, 3, 4, 5, 6] := by decide +kernel
+
+/-- The LZMA2 chunk-header machine (the 8 sequences of `lzma2_decode()`; LZMA payload and dictionary abstract: every copied byte and
+    every payload byte is an event, there is no output-capacity limit in this model): one call = `l2Feed` on the offered bytes, the
+    events accumulate in the coder state. It is a byte machine (one `l2Step` per input byte). -/
+theorem lzma2_header_machine : Sim l2Coder l2Machine id (fun _ => True) := l2_sim
+
+/-- Under any two fair slicings: same final sequence state, same events in the same order (dictionary resets, state resets, properties,
+    chunk sizes, every copied byte, every payload byte, the verdict), same consumed count, same return code. -/
+theorem lzma2_header_slicing_independent (input : List UInt8) (fin : Bool) (sl₁ sl₂ : List (Nat × Nat)) :
+    let r₁ := runSliced l2Coder fin sl₁ (Run.init L2C.init input)
+    let r₂ := runSliced l2Coder fin sl₂ (Run.init L2C.init input)
+    r₁.settled = true → r₂.settled = true → r₁.out = r₂.out ∧ r₁.ret = r₂.ret ∧ r₁.consumed = r₂.consumed ∧ r₁.state = r₂.state :=
+  l2_slicing_independent L2C.init input fin sl₁ sl₂
+
+theorem lzma2_header_sliced_eq_whole (input : List UInt8) (fin : Bool) (sl : List (Nat × Nat)) :
+    let R := runSliced l2Coder fin sl (Run.init L2C.init input)
+    R.settled = true →
+      R.state.1 = (l2Feed {} input).1 ∧ R.state.2.1 = (l2Feed {} input).2.1 ∧ R.consumed = (l2Feed {} input).2.2
+        ∧ R.ret = (l2Verdict (l2Feed {} input).2.1).getD .ok :=
+  l2_sliced_eq_whole input fin sl
+
+/-- non-vacuity: an uncompressed chunk with dictionary reset, byte-at-a-time with empty calls = whole; a chunk that needs a dictionary
+    reset first is rejected at its control byte -/
+example : (fun r : Run L2C => (r.state.2.1, r.ret, r.consumed))
+    (runSliced l2Coder true [(1, 0), (0, 0), (1, 0), (1, 0), (0, 0), (1, 0), (1, 0), (1, 0), (1, 0)]
+      (Run.init L2C.init [0x01, 0x00, 0x02, 0x41, 0x42, 0x43, 0x00]))
+    = ([.dictReset, .chunkSizes false 3 3, .copyByte 0x41, .copyByte 0x42, .copyByte 0x43, .finished .streamEnd], .streamEnd, 7) := by
+  decide +kernel
 example : (l2Feed {} [0x01, 0x00, 0x02, 0x41, 0x42, 0x43, 0x00]).2 =
     ([.dictReset, .chunkSizes false 3 3, .copyByte 0x41, .copyByte 0x42, .copyByte 0x43, .finished .streamEnd], 7) := by decide +kernel
-example : (l2Feed (l2Feed {} [0x01, 0x00]).1 [0x02, 0x41, 0x42, 0x43, 0x00]).2 =
-    ([.chunkSizes false 3 3, .copyByte 0x41, .copyByte 0x42, .copyByte 0x43, .finished .streamEnd], 5) := by decide +kernel
 example : (l2Feed {} [0x02, 0x00, 0x02]).2 = ([.finished .dataError], 1) := by decide +kernel
 
-/-- The Index decoder sequence machine (`index_decode()`; VLIs with `coder->pos`, padding, CRC32 over every byte exactly once):
-    feeding `a ++ b` = feeding `a`, then `b` with the carried state. -/
-theorem index_decoder_refines (s : IxState) (a b : List UInt8) :
-    ixFeed s (a ++ b) =
-      match (ixFeed s a).2.1 with
-      | some _ => ixFeed s a
-      | none => ((ixFeed (ixFeed s a).1 b).1, (ixFeed (ixFeed s a).1 b).2.1, (ixFeed (ixFeed s a).1 b).2.2 + (ixFeed s a).2.2) :=
-  ixFeed_append s a b
+/-- The Index decoder sequence machine (`index_decode()`: VLIs with `coder->pos`, Records, padding, CRC32 over every byte exactly once):
+    one call = `ixFeed`; it is a byte machine (one `ixStep` per input byte). -/
+theorem index_decoder_machine : Sim ixCoder ixMachine id (fun _ => True) := ix_sim
 
-/-- non-vacuity: a real Index (two Records, two padding bytes, CRC32) is accepted whole and in pieces cut inside a VLI and inside
-    the CRC; a wrong CRC byte is rejected -/
+/-- Under any two fair slicings: same verdict, same consumed count, same final state — in particular the same Records and the same
+    CRC32 register. -/
+theorem index_decoder_slicing_independent (input : List UInt8) (fin : Bool) (sl₁ sl₂ : List (Nat × Nat)) :
+    let r₁ := runSliced ixCoder fin sl₁ (Run.init ({}, none) input)
+    let r₂ := runSliced ixCoder fin sl₂ (Run.init ({}, none) input)
+    r₁.settled = true → r₂.settled = true → r₁.out = r₂.out ∧ r₁.ret = r₂.ret ∧ r₁.consumed = r₂.consumed ∧ r₁.state = r₂.state :=
+  ix_slicing_independent ({}, none) input fin sl₁ sl₂
+
+theorem index_decoder_sliced_eq_whole (input : List UInt8) (fin : Bool) (sl : List (Nat × Nat)) :
+    let R := runSliced ixCoder fin sl (Run.init ({}, none) input)
+    R.settled = true →
+      R.state = ((ixFeed {} input).1, (ixFeed {} input).2.1) ∧ R.consumed = (ixFeed {} input).2.2
+        ∧ R.ret = (ixFeed {} input).2.1.getD .ok :=
+  ix_sliced_eq_whole input fin sl
+
+/-- non-vacuity: a real Index (two Records, two padding bytes, CRC32) whole and in pieces cut inside a VLI and inside the CRC;
+    a wrong CRC byte is rejected -/
+example : (fun r : Run (IxState × Option Ret) => (r.ret, r.consumed, r.state.1.records))
+    (runSliced ixCoder true [(5, 0), (0, 0), (5, 0), (1, 0), (9, 0)]
+      (Run.init ({}, none) [0x00, 0x02, 0x11, 0x05, 0x92, 0x01, 0x06, 0x00, 0x90, 0x74, 0x06, 0xB2]))
+    = (.streamEnd, 12, [(146, 6), (17, 5)]) := by decide +kernel
 example : (ixFeed {} [0x00, 0x02, 0x11, 0x05, 0x92, 0x01, 0x06, 0x00, 0x90, 0x74, 0x06, 0xB2]).2 = (some .streamEnd, 12) := by
   decide +kernel
-example : (ixFeed (ixFeed {} [0x00, 0x02, 0x11, 0x05, 0x92]).1 [0x01, 0x06, 0x00, 0x90, 0x74]).2 = (none, 5) := by decide +kernel
-example : (ixFeed (ixFeed (ixFeed {} [0x00, 0x02, 0x11, 0x05, 0x92]).1 [0x01, 0x06, 0x00, 0x90, 0x74]).1 [0x06, 0xB2]).2
-    = (some .streamEnd, 2) := by decide +kernel
 example : (ixFeed {} [0x00, 0x02, 0x11, 0x05, 0x92, 0x01, 0x06, 0x00, 0x90, 0x74, 0x05, 0xB2]).2 = (some .dataError, 11) := by
   decide +kernel
 
+/-! ## 3. `simple_code()` with the real BCJ filters -/
+
 /-- **`simple_code()` is slicing independent for every filter with the BCJ contract.**
-    `F` is any filter that processes a prefix, leaves the rest untouched (at most `unfilteredMax` bytes) and is prefix-stable
-    (`BcjContract`); the coder reads the caller's input directly (`next.code == NULL`, the configuration of every BCJ *encoder*).
-    For every slicing: what has been written so far is a prefix of `F` applied to the whole input at once (whose unfilterable tail
-    is, by the contract, the input's own bytes: they are copied verbatim at `LZMA_FINISH`); and once a call returns
-    `LZMA_STREAM_END` the output is exactly that and all input has been consumed. Hence any two slicings that reach
-    `LZMA_STREAM_END` produce identical bytes. -/
-theorem simple_coder_slicing {φ : Type} (F : Filter φ) (unfilteredMax : Nat) (hF : BcjContract F unfilteredMax) (isEncoder : Bool)
-    (allocated : Nat) (φ₀ : φ) (input : List UInt8) (fin : Bool) (sl : List (Nat × Nat)) :
-    let r := runSliced (simpleCoder F (Src.null isEncoder) allocated) fin sl (Run.init (Simple.init φ₀ ()) input)
+    `F` is any filter that keeps the size, processes a prefix, leaves the rest untouched (at most `unfilteredMax` bytes) and is
+    prefix-stable for buffers shorter than `lim` (`BcjContract`, Lemmas/CoderSimple.lean; the state reached may differ between one
+    call and two — only bytes and counts are compared); the coder reads the caller's input directly (`next.code == NULL`, or a next
+    coder that behaves like `lzma_bufcpy`). For every slicing of an input shorter than `lim`: what has been written so far is a prefix
+    of `F` applied to the whole input at once; and once a call returns `LZMA_STREAM_END` the output is exactly that and all input has
+    been consumed. -/
+theorem simple_coder_slicing {φ : Type} (F : Filter φ) (unfilteredMax lim : Nat) (hF : BcjContract F unfilteredMax lim) (endsAtFinish : Bool)
+    (allocated : Nat) (φ₀ : φ) (input : List UInt8) (hlim : input.length < lim) (fin : Bool) (sl : List (Nat × Nat)) :
+    let r := runSliced (simpleCoder F (Src.null endsAtFinish) allocated) fin sl (Run.init (Simple.init φ₀ ()) input)
     (∃ o, (F φ₀ input).1 = r.out ++ o)
       ∧ (r.ret = .streamEnd → r.out = (F φ₀ input).1 ∧ r.consumed = input.length)
       ∧ (r.ret = .ok ∨ r.ret = .streamEnd) := by
   intro r
-  have h : SRunInv F φ₀ input r := (SRunInv.init F φ₀ input).sliced hF isEncoder allocated fin sl
-  refine ⟨h.result.1, h.result.2, ?_⟩
+  have h : SRunInv F lim φ₀ input (NullG input) input.length r :=
+    (SRunInv.init F lim φ₀ input (NullG input) input hlim () (by simp [NullG])).sliced hF (nullLaw endsAtFinish fin input) allocated sl
+  refine ⟨h.result_null.1, h.result_null.2, ?_⟩
   by_cases hr : r.ret = .ok
   · exact Or.inl hr
   · exact Or.inr (h.retEnd hr).1
 
+/-- **The contract holds for the eight real filters** (`CoderBcj.bcjFilter id enc` = `call_filter()` dispatching to C15's models
+    `x86Code` — with its carried `prev_mask`/`prev_pos` —, `powerpcCode`, `ia64Code`, `armCode`, `armthumbCode`, `sparcCode`,
+    `arm64Code`, `riscvCode`; encoder and decoder; `unfiltered_max` as passed by the init functions). Prefix stability is
+    `C15.bcj_chunk_stable`, `C15.x86_chunk_stable`, `C15.riscv_chunk_stable`; for x86 it is claimed below 4 GiB − 5 bytes (the
+    32-bit `prev_pos` distance), for the others without limit. -/
+theorem bcj_contract_real (id : XzVerif.Simple.FilterId) (enc : Bool) (lim : Nat) (hx : id = .x86 → lim + 5 ≤ 2 ^ 32) :
+    BcjContract (CoderBcj.bcjFilter id enc) id.unfilteredMax lim :=
+  CoderBcj.bcj_contract id enc lim hx
+
+/-- The filters covered: all `lzma_simple_coder_init` callers. -/
+def realFilters : List XzVerif.Simple.FilterId := [.x86, .powerpc, .ia64, .arm, .armthumb, .sparc, .arm64, .riscv]
+
+theorem realFilters_complete (id : XzVerif.Simple.FilterId) : id ∈ realFilters := by cases id <;> simp [realFilters]
+
+/-- **The two `simple_code()` models agree call by call.** `XzVerif.Simple.simpleCode` (Model/Simple.lean) is the model that C15's
+    correspondence compares byte for byte with `simple_code()` running the real filters; `Coder.simpleCode` (Model/CoderSmall.lean) is
+    the one the slicing proof is about (tied to the C function with a test filter by this check's own correspondence). For every coder
+    object with `size = |buffer|` (true after init, kept by every call), every input, capacity and action: same new state, same
+    output bytes, same consumed count, same return code; filter id, direction, next coder and `allocated` never change. -/
+theorem simple_model_equiv (c : XzVerif.Simple.Coder) (hsz : c.size = c.buffer.length) (inp : List UInt8) (cap : Nat)
+    (a : XzVerif.Simple.Action) :
+    CoderBcj.toSimple (XzVerif.Simple.simpleCode c inp cap a).1
+        = ((CoderBcj.coderOf c).code (CoderBcj.toSimple c) inp cap (CoderBcj.actOf a)).1
+    ∧ (XzVerif.Simple.simpleCode c inp cap a).2.out = ((CoderBcj.coderOf c).code (CoderBcj.toSimple c) inp cap (CoderBcj.actOf a)).2.out
+    ∧ (XzVerif.Simple.simpleCode c inp cap a).2.consumed
+        = ((CoderBcj.coderOf c).code (CoderBcj.toSimple c) inp cap (CoderBcj.actOf a)).2.consumed
+    ∧ (XzVerif.Simple.simpleCode c inp cap a).2.ret
+        = ((CoderBcj.coderOf c).code (CoderBcj.toSimple c) inp cap (CoderBcj.actOf a)).2.ret.toNat
+    ∧ (XzVerif.Simple.simpleCode c inp cap a).1.size = (XzVerif.Simple.simpleCode c inp cap a).1.buffer.length
+    ∧ CoderBcj.SameKind c (XzVerif.Simple.simpleCode c inp cap a).1 :=
+  CoderBcj.code_equiv c hsz inp cap a
+
+/-- **`simple_code()` with a real filter is slicing independent** — no abstract hypothesis left. For every filter `id ∈ realFilters`,
+    direction, next-coder configuration of C15's model (`next.code == NULL`, or its pass-through next coder), aligned start offset
+    (`Coder.init` succeeds), every input (x86: shorter than 4 GiB − 5), every slicing `sl` (any number of `(avail_in, avail_out)`
+    pieces, zeros allowed), with or without `LZMA_FINISH` at the end: running C15's model `Simple.simpleCode` call by call
+    (`CoderBcj.c15Coder`), the output so far is a prefix of the filter applied ONCE to the whole input from the initial state
+    (`Simple.filterCode id enc X86State.init start_offset input`, whose unprocessed tail is the input's own bytes), the return code
+    is `LZMA_OK` or `LZMA_STREAM_END`, and at `LZMA_STREAM_END` the output is exactly that and everything was consumed. -/
+theorem simple_coder_slicing_bcj (id : XzVerif.Simple.FilterId) (_hid : id ∈ realFilters) (enc : Bool) (next : XzVerif.Simple.Next)
+    (off : BitVec 32) (c₀ : XzVerif.Simple.Coder) (hinit : XzVerif.Simple.Coder.init id enc next off = some c₀)
+    (input : List UInt8) (hx : id = .x86 → input.length + 5 < 2 ^ 32) (fin : Bool) (sl : List (Nat × Nat)) :
+    let r := runSliced CoderBcj.c15Coder fin sl (Run.init c₀ input)
+    let whole := (XzVerif.Simple.filterCode id enc Bcj.X86State.init off input).1
+    (∃ o, whole = r.out ++ o) ∧ (r.ret = .streamEnd → r.out = whole ∧ r.consumed = input.length)
+      ∧ (r.ret = .ok ∨ r.ret = .streamEnd) :=
+  CoderBcj.c15_slicing id enc next off c₀ hinit input hx fin sl
+
 /-- Corollary in the shape of the property: two slicings, both finished ⇒ same bytes, same consumed count. -/
-theorem simple_coder_two_slicings {φ : Type} (F : Filter φ) (unfilteredMax : Nat) (hF : BcjContract F unfilteredMax) (isEncoder : Bool)
-    (allocated : Nat) (φ₀ : φ) (input : List UInt8) (sl₁ sl₂ : List (Nat × Nat)) :
-    let r₁ := runSliced (simpleCoder F (Src.null isEncoder) allocated) true sl₁ (Run.init (Simple.init φ₀ ()) input)
-    let r₂ := runSliced (simpleCoder F (Src.null isEncoder) allocated) true sl₂ (Run.init (Simple.init φ₀ ()) input)
+theorem simple_coder_two_slicings_bcj (id : XzVerif.Simple.FilterId) (enc : Bool) (next : XzVerif.Simple.Next)
+    (off : BitVec 32) (c₀ : XzVerif.Simple.Coder) (hinit : XzVerif.Simple.Coder.init id enc next off = some c₀)
+    (input : List UInt8) (hx : id = .x86 → input.length + 5 < 2 ^ 32) (fin₁ fin₂ : Bool) (sl₁ sl₂ : List (Nat × Nat)) :
+    let r₁ := runSliced CoderBcj.c15Coder fin₁ sl₁ (Run.init c₀ input)
+    let r₂ := runSliced CoderBcj.c15Coder fin₂ sl₂ (Run.init c₀ input)
     r₁.ret = .streamEnd → r₂.ret = .streamEnd → r₁.out = r₂.out ∧ r₁.consumed = r₂.consumed := by
   intro r₁ r₂ h₁ h₂
-  have a := (simple_coder_slicing F unfilteredMax hF isEncoder allocated φ₀ input true sl₁).2.1 h₁
-  have b := (simple_coder_slicing F unfilteredMax hF isEncoder allocated φ₀ input true sl₂).2.1 h₂
+  have a := (simple_coder_slicing_bcj id (realFilters_complete id) enc next off c₀ hinit input hx fin₁ sl₁).2.1 h₁
+  have b := (simple_coder_slicing_bcj id (realFilters_complete id) enc next off c₀ hinit input hx fin₂ sl₂).2.1 h₂
   exact ⟨a.1.trans b.1.symm, a.2.trans b.2.symm⟩
 
-/-- non-vacuity of the contract: a position-dependent byte filter (unit 1: `out[i] = in[i] + (now_pos + i)`) satisfies it … -/
-def posMap : Nat → List UInt8 → List UInt8
-  | _, [] => []
-  | p, b :: t => (b + UInt8.ofNat p) :: posMap (p + 1) t
+/-- non-vacuity with the REAL x86 filter (C15's example: the candidate at 0 is rejected, the one at 1 is converted with `prev_mask = 2`):
+    a ragged slicing that cuts inside the operand and offers 1–3 bytes of output room reaches `LZMA_STREAM_END` with the one-shot bytes -/
+def exX86 : XzVerif.Simple.Coder :=
+  { id := .x86, isEncoder := true, next := .null, endWasReached := false, nowPos := 0#32, allocated := 10, pos := 0, filtered := 0,
+    size := 0, buffer := [], st := Bcj.X86State.init }
 
-def posFilter : Filter Nat := fun pos buf => (posMap pos buf, buf.length, pos + buf.length)
+example : XzVerif.Simple.Coder.init .x86 true .null 0#32 = some exX86 := by
+  simp [XzVerif.Simple.Coder.init, exX86, XzVerif.Simple.FilterId.alignment, XzVerif.Simple.FilterId.unfilteredMax]
+example : (fun r : Run XzVerif.Simple.Coder => (r.out, r.ret, r.consumed))
+    (runSliced CoderBcj.c15Coder true [(3, 2), (1, 1), (0, 5), (2, 0), (5, 3), (9, 2), (9, 9)]
+      (Run.init exX86 [0xE8, 0xE8, 0xFA, 0xFF, 0xFE, 0x00, 9, 9, 9, 9]))
+    = ([0xE8, 0xE8, 0x05, 0x00, 0x01, 0x00, 9, 9, 9, 9], .streamEnd, 10) := by decide +kernel
+example : (XzVerif.Simple.filterCode .x86 true Bcj.X86State.init 0#32 [0xE8, 0xE8, 0xFA, 0xFF, 0xFE, 0x00, 9, 9, 9, 9]).1
+    = [0xE8, 0xE8, 0x05, 0x00, 0x01, 0x00, 9, 9, 9, 9] := by decide +kernel
 
-theorem posMap_length (p : Nat) (l : List UInt8) : (posMap p l).length = l.length := by
-  induction l generalizing p with
-  | nil => rfl
-  | cons b t ih => simp [posMap, ih]
-
-theorem posMap_append (p : Nat) (a b : List UInt8) : posMap p (a ++ b) = posMap p a ++ posMap (p + a.length) b := by
-  induction a generalizing p with
-  | nil => simp [posMap]
-  | cons x t ih => simp [posMap, ih, Nat.add_assoc, Nat.add_comm 1]
-
-theorem posFilter_contract : BcjContract posFilter 0 := by
-  refine ⟨fun s b => posMap_length s b, fun s b => Nat.le_refl _, fun s b => ?_, fun s b => by simp [posFilter], fun s a b => ?_⟩
-  · simp only [posFilter]
-    rw [List.drop_of_length_le (by rw [posMap_length]; exact Nat.le_refl _), List.drop_length]
-  · simp only [posFilter]
-    rw [List.take_of_length_le (by rw [posMap_length]; exact Nat.le_refl _),
-      List.drop_of_length_le (by rw [posMap_length]; exact Nat.le_refl _), List.nil_append, posMap_append, List.length_append,
-      Nat.add_assoc]
-
-/-- … and with the test filter of the harness (whole units of 4 bytes, position dependent), a 2·4-byte buffer and a ragged slicing the
-    chunked run gives exactly the one-shot result, the three unfilterable tail bytes verbatim -/
+/-- … and with the test filter of the harness (whole units of 4 bytes, position dependent; the filter the C06 correspondence runs inside
+    the real `simple_code()`), a 2·4-byte buffer and a ragged slicing the chunked run gives exactly the one-shot result -/
 example : (runSliced (simpleCoder (testFilter 4 true) (Src.null true) 8) true [(3, 2), (1, 1), (0, 5), (2, 0), (5, 3), (9, 2), (9, 9)]
       (Run.init (Simple.init 0 ()) [0, 1, 2, 3, 4, 5, 6, 7, 8, 9, 10])).out
     = (testFilter 4 true 0 [0, 1, 2, 3, 4, 5, 6, 7, 8, 9, 10]).1 := by decide +kernel
-example : (testFilter 4 true 0 [0, 1, 2, 3, 4, 5, 6, 7, 8, 9, 10]).1 = [1, 3, 5, 7, 9, 11, 13, 15, 8, 9, 10] := by decide +kernel
 
-/-! ## Encoder determinism across thread counts, timeouts and schedules (deferred to C08) -/
+/-! ## 4. Encoder determinism across thread counts, timeouts and schedules -/
 
-/-- Determinism of the threaded encoder: **not proved here.** `Terminates threads timeout schedule slicing input output` is meant to be
-    instantiated with "the MT-encoder labelled transition system of C08 (`Model/MtEnc.lean`) has a terminating run with these
-    parameters that returns `LZMA_STREAM_END` having written `output`". The statement: the output depends on the input (and the
-    fixed options: block size, filter chain, check) only — not on the number of worker threads (≥ 1), the timeout, the thread
-    schedule or the slicing of the caller's buffers. C08's theorem that every terminating run outputs
-    `header ++ concat (encodeBlock chunkᵢ) ++ index ++ footer` with chunks cut at `block_size`/flush points only implies it.
-    Here it is exercised on the real code: threads 1…8 × timeouts 0/1/50 ms × block sizes × slicings must give identical bytes
-    (group `mt-encoder-determinism` of the oracle). -/
-def mt_encoder_deterministic_statement
-    (Terminates : (threads timeout : Nat) → (schedule : List Nat) → (slicing : List (Nat × Nat)) → (input output : List UInt8) → Prop) :
-    Prop :=
-  ∀ t₁ t₂ to₁ to₂ sch₁ sch₂ sl₁ sl₂ input o₁ o₂, 1 ≤ t₁ → 1 ≤ t₂ →
-    Terminates t₁ to₁ sch₁ sl₁ input o₁ → Terminates t₂ to₂ sch₂ sl₂ input o₂ → o₁ = o₂
+/-- **The threaded encoder's output is a function of (input, block size, flush offsets, filter updates).**
+    `MtEnc.GReach P c s g`: state `s` of the MT-encoder transition system of C08 (Model/MtEnc.lean: every interleaving of main-thread
+    and worker critical sections, spurious wake-ups, time-outs) is reachable from a fresh encoder with configuration `c` (threads,
+    timeout, block size, initial filter chain), `g` being the ghost record of the `lzma_filters_update` calls that were accepted
+    (input offset, new chain) — Lemmas/MtEncChain.lean. Two runs with ANY thread counts ≥ 1, ANY timeouts, ANY schedules and ANY
+    slicing of the application's `lzma_code` calls that have returned `LZMA_STREAM_END` for `LZMA_FINISH` (`seq = ended`) having
+    consumed the same input with the same block size, the same flush offsets (`LZMA_FULL_FLUSH`/`LZMA_FULL_BARRIER` requests, as
+    input offsets) and the same filter updates have delivered the same Blocks (same cuts, data, filter chains, order) and written
+    the same bytes. Uses `C08.mtenc_deterministic` (cuts), `C08.mtenc_output` (layout) and the filter-chain invariant. -/
+theorem mt_encoder_deterministic {P : MtEnc.Params} {c₁ c₂ : MtEnc.Cfg} (a₁ : 0 < c₁.bs) (a₂ : 0 < c₁.tmax) (b₁ : 0 < c₂.bs) (b₂ : 0 < c₂.tmax)
+    {s₁ s₂ : MtEnc.St} {g₁ g₂ : MtEnc.Upd} (hr₁ : MtEnc.GReach P c₁ s₁ g₁) (hr₂ : MtEnc.GReach P c₂ s₂ g₂)
+    (he₁ : s₁.seq = .ended) (he₂ : s₂.seq = .ended) (hbs : s₁.cfg.bs = s₂.cfg.bs) (hF : s₁.flushPts = s₂.flushPts)
+    (hin : s₁.consumed = s₂.consumed) (hg : g₁ = g₂) : s₁.done = s₂.done ∧ s₁.out = s₂.out :=
+  MtEnc.mtenc_bytes_deterministic a₁ a₂ b₁ b₂ hr₁ hr₂ he₁ he₂ hbs hF hin hg
 
-/-- What is proved of it here: the trivial but necessary half — if the run relation is a function of the input alone (which is what
-    C08 establishes), determinism follows. -/
-theorem mt_encoder_deterministic_partial
-    (Terminates : (threads timeout : Nat) → (schedule : List Nat) → (slicing : List (Nat × Nat)) → (input output : List UInt8) → Prop)
-    (spec : List UInt8 → List UInt8)
-    (hspec : ∀ t to sch sl input o, 1 ≤ t → Terminates t to sch sl input o → o = spec input) :
-    mt_encoder_deterministic_statement Terminates := by
-  intro t₁ t₂ to₁ to₂ sch₁ sch₂ sl₁ sl₂ input o₁ o₂ h₁ h₂ r₁ r₂
-  rw [hspec _ _ _ _ _ _ h₁ r₁, hspec _ _ _ _ _ _ h₂ r₂]
+/-- The ghost record loses nothing: every reachable state of C08's system carries one, and forgetting it gives C08's reachability. -/
+theorem mt_encoder_ghost_conservative {P : MtEnc.Params} {c : MtEnc.Cfg} {s : MtEnc.St} :
+    MtEnc.Reachable P c s ↔ ∃ g, MtEnc.GReach P c s g :=
+  ⟨fun h => h.ghost, fun ⟨_, h⟩ => h.reachable⟩
+
+/-- non-vacuity: two concrete finished runs — two threads vs. one thread with a timeout that fires, different `lzma_code` slicing, one
+    accepted filter update at offset 3 — satisfy all hypotheses at once (and indeed wrote the same 14 bytes) -/
+example : ∃ s₁ s₂ g, MtEnc.GReach C08.exP C08.exCfg s₁ g ∧ MtEnc.GReach C08.exP MtEnc.exCfgB s₂ g ∧ s₁.seq = .ended ∧ s₂.seq = .ended
+    ∧ s₁.cfg.bs = s₂.cfg.bs ∧ s₁.flushPts = s₂.flushPts ∧ s₁.consumed = s₂.consumed ∧ g.upds = [(3, 7)]
+    ∧ s₁.cfg.tmax = 2 ∧ s₂.cfg.tmax = 1 ∧ s₁.out = [1, 2, 100, 10, 11, 0, 101, 12, 0, 102, 13, 7, 9, 3] := by
+  have hA : ∃ sg, MtEnc.grun C08.exP (MtEnc.initSt C08.exCfg C08.exP, ⟨0, []⟩) (C08.exTrace1 ++ C08.exTrace2) = some sg
+      ∧ MtEnc.gobs sg = MtEnc.exObs ∧ sg.1.cfg.tmax = 2 := by decide +kernel
+  have hB : ∃ sg, MtEnc.grun C08.exP (MtEnc.initSt MtEnc.exCfgB C08.exP, ⟨0, []⟩) MtEnc.exTraceB = some sg
+      ∧ MtEnc.gobs sg = MtEnc.exObs ∧ sg.1.cfg.tmax = 1 := by decide +kernel
+  obtain ⟨⟨s₁, g₁⟩, r₁, o₁, t₁⟩ := hA
+  obtain ⟨⟨s₂, g₂⟩, r₂, o₂, t₂⟩ := hB
+  have q₁ := MtEnc.greach_grun _ MtEnc.GReach.init r₁
+  have q₂ := MtEnc.greach_grun _ MtEnc.GReach.init r₂
+  have e₁ : MtEnc.gobs (s₁, g₁) = MtEnc.exObs := o₁
+  have e₂ : MtEnc.gobs (s₂, g₂) = MtEnc.exObs := o₂
+  simp only [MtEnc.gobs, MtEnc.exObs, MtEnc.GObs.mk.injEq] at e₁ e₂
+  obtain ⟨x1, x2, x3, x4, x5, x6, x7⟩ := e₁
+  obtain ⟨y1, y2, y3, y4, y5, y6, y7⟩ := e₂
+  have hg : g₂ = g₁ := y5.trans x5.symm
+  subst hg
+  exact ⟨s₁, s₂, g₂, q₁, q₂, x1, y1, x2.trans y2.symm, x3.trans y3.symm, x4.trans y4.symm, by rw [x5], t₁, t₂, x7⟩
 
 end XzVerif.C06
